@@ -349,7 +349,15 @@ func runMergeScenario(run *core.Run, seed int64, nChildren int, what string) (tv
 	}
 	// every 4th REQ scenario: the last child answers slowly and the client closes a subscription
 	// shortly after opening it, so that the CLOSE meets a child that is still answering
-	closeRace := what == "req" && seed%4 == 3 && nChildren >= 2
+	if nChildren > 60 {
+		for _, c := range children {
+			c.pool, c.style, c.live = nil, 0, false
+		}
+		last := children[len(children)-1]
+		last.slow = 3 * time.Millisecond // the merged EOSE has to wait for the last child too
+		last.pool = pool[:1]
+	}
+	closeRace := what == "req" && seed%4 == 3 && nChildren >= 2 && nChildren < 60
 	if closeRace {
 		last := children[len(children)-1]
 		last.slow = time.Duration(60+r.Intn(200)) * time.Microsecond
@@ -425,6 +433,9 @@ func runMergeScenario(run *core.Run, seed int64, nChildren int, what string) (tv
 	steps := 3 + r.Intn(5)
 	if nChildren > 8 {
 		steps = 2 // every client message costs 2 x nChildren observations
+	}
+	if nChildren > 60 {
+		steps = 1
 	}
 	for i := 0; i < steps && !stuck; i++ {
 		cj()
@@ -616,13 +627,16 @@ func mergeCheck(run *core.Run, what string, n int) {
 		if what == "okcount" && i%9 == 8 {
 			nChildren = 13 + i%4 // many children: the aggregation must not depend on how many there are
 		}
+		if what == "req" && i == 5 {
+			nChildren = 65 + int(run.Seed%4) // more children than a machine word has bits
+		}
 		tr, complete := runMergeScenario(run, run.Seed*100000+int64(i), nChildren, what)
 		if !complete {
 			incomplete++
 			run.Violate(what+":no reply to the final COUNT within 3s (a reply was lost or the session is stuck)",
 				fmt.Sprintf("%s: %d lines recorded", tr.Name, len(tr.Lines)), map[string]any{"trace": tr.Lines})
 		}
-		if len(tr.Lines) > 170 {
+		if len(tr.Lines) > 170 && nChildren < 60 {
 			run.Add("scenarios_skipped_too_long", 1)
 			continue
 		}
